@@ -13,7 +13,9 @@ PLAN = {
     "C01": [("core", "dev"), ("ctl", "dev"), ("shape", "dev")],
     "C03": [("shape", "dev"), ("core", "dev")],
     "C04": [("sizes", "dev"), ("sizes", "release"), ("core", "dev")],
-    "C08": [("core", "dev"), ("ctl", "dev")],
+    "C05": [("reopen", "dev")],
+    "C08": [("core", "dev"), ("ctl", "dev"), ("reopen", "dev")],
+    "C09": [("ro", "dev"), ("reopen", "dev")],
     "C10": [("core", "dev"), ("shape", "dev")],
     "C11": [("core", "dev"), ("ctl", "dev"), ("sizes", "dev")],
     "C16": [("layout", "dev"), ("core", "dev")],
@@ -23,6 +25,8 @@ PLAN = {
 }
 
 RULES = {
+    "C05": ("reopen events (state before close compared with state after open)", lambda st: st.get("reopen", 0)),
+    "C09": ("reopen events + mutating calls issued on read-only sessions", lambda st: st.get("reopen", 0)),
     "C01": ("drivers in which an allocation was served from recycled space (free list) while other handles were live",
             lambda st: st["drivers_with_reuse"]),
     "C03": ("allocation events served from a recycled segment by a typed/aligned call, plus zero-sized requests",
@@ -110,6 +114,20 @@ def run(prop, tier, seed):
                     "violation_events": len([v for v in r["viol"] if v["prop"] == prop]), "drift_events": len(r["drift"])} for r in results],
         "trace_stats": stats_total,
     }
+    if prop == "C09":
+        # first half of C09: open attempts on valid / damaged files (ArenaFile model + TraceOpen)
+        import check_open
+        cov2, v2, d2, _ = check_open.run(prop, tier, seed)
+        viol += v2
+        drift += d2
+        coverage["states"] += cov2["states"]
+        coverage["transitions"] += cov2["transitions"]
+        coverage["traces_validated_against_impl"] += cov2["traces_validated_against_impl"]
+        coverage["evaluations"] += cov2["evaluations"]
+        coverage["distinct_nontrivial"] += cov2["distinct_nontrivial"]
+        coverage["samples"].append({"suite": "open-attempts", "driver": cov2["samples"][0]})
+        coverage["rule"] += "; " + cov2["rule"]
+        coverage["open_attempts"] = cov2["evaluations"]
     assumptions = [
         "ArenaSeq is a hand-written transcription of unsync.rs/sync.rs; its fidelity is checked on every replayed event by TraceSeqImpl (DRIFT if it fails)",
         "small-scope exhaustive exploration (cap 96..127, <= %d calls after scripted prefixes) plus sampled larger histories" % (6 if tier == "thorough" else 5),
